@@ -133,6 +133,9 @@ SCENARIOS = [
      ['listdir', 'stat', 'statvfs', 'mkdir', 'rmdir', 'rename', 'remove']),
     (['OPEN "CAS1:T" FOR OUTPUT AS 1', 'PRINT#1,STRING$(200,"c")', 'CLOSE', 'SAVE "CAS1:P"', 'LOAD "CAS1:P"', 'OPEN "CAS1:T" FOR INPUT AS 1', 'LINE INPUT#1,A$', 'CLOSE'],
      ['write', 'read', 'seek', 'open', 'close', 'flush']),
+    # a printer that fails: its buffer is flushed when a program returns to direct mode, on Break and on closing
+    (['NEW', '10 LPRINT "x";:LPRINT 1', '20 FOR I=1 TO 300:NEXT', '@break', 'RUN', 'LPRINT "y"', 'RUN', 'LLIST',
+      'OPEN "LPT1:" FOR OUTPUT AS 1', 'PRINT#1,"z"', 'CLOSE', 'LPRINT "w"', '@close'], ['flush', 'write', 'flush', 'close']),
 ]
 
 
@@ -173,7 +176,12 @@ def _scenario(rng):
         if i == k or rng.random() < 0.15:
             out.append({'op': 'io', 'kind': rng.choice(kinds), 'nth': rng.choice([1, 1, 1, 2, 3, 5]), 'errno': rng.choice(ERRNOS),
                         'repeat': rng.choice([1, 1, 2, 50]), 'torn': rng.choice([None, None, None, 0, 1, 3])})
-        out.append({'op': 'exec', 'line': st})
+        if st == '@break':
+            out.append({'op': 'sig', 'what': 'break', 'poll': rng.randint(1, 8), 'text': ''})
+        elif st == '@close':
+            out.append({'op': 'close'})
+        else:
+            out.append({'op': 'exec', 'line': st})
     return out
 
 
@@ -265,7 +273,8 @@ def _session_kwargs(cfg, root):
         return {'devices': {'C:': mount}, 'current_device': 'C:'}
     if arm == 'api-swarm':
         kw = dict(cfg['session'])
-        kw.update({'devices': {'C:': mount, 'CAS1:': 'CAS:' + os.path.join(root, 'tape.cas')}, 'current_device': 'C:'})
+        kw.update({'devices': {'C:': mount, 'CAS1:': 'CAS:' + os.path.join(root, 'tape.cas'),
+                               'LPT1:': 'FILE:' + os.path.join(root, 'lpt1.txt')}, 'current_device': 'C:'})
         return kw
     # command-line configuration
     from pcbasic import config
@@ -418,6 +427,13 @@ def run(case):
                         fs.disarm()
                         del armed[:]
                         d = suspend_resume(d, os.path.join(root, 'chaos.state'))
+                    elif k == 'close':
+                        # the session is closed with whatever fault is armed still pending; then a new one starts
+                        d.close()
+                        fs.disarm()
+                        del armed[:]
+                        d = new_driver()
+                        run.state('api', 'close')
                     elif k == 'checkpoint':
                         # save the session and carry on with the live one
                         fs.disarm()
